@@ -5,7 +5,7 @@ cd $WT || exit 9
 git checkout -q -- unified_planning
 git apply $CH/patch.diff || { echo "APPLY-FAILED"; exit 9; }
 PYTHONPATH=$WT /venv/bin/python $CH/demo.py > /tmp/demo_with.out 2>&1; W=$?
-/venv/bin/python -m pytest -q -p no:cacheprovider --timeout=900 -n 12 2>&1 | tail -1 > /tmp/suite.out
+/venv/bin/python -m pytest -q -rf -p no:cacheprovider --timeout=900 -n 12 > /tmp/suite_full.out 2>&1; tail -1 /tmp/suite_full.out > /tmp/suite.out; grep "^FAILED\|^ERROR" /tmp/suite_full.out | cut -c1-200 | head -5 >> /tmp/suite.out
 git checkout -q -- unified_planning
 PYTHONPATH=$WT /venv/bin/python $CH/demo.py > /tmp/demo_without.out 2>&1; WO=$?
 echo "$CH demo_with_exit=$W demo_without_exit=$WO suite: $(cat /tmp/suite.out)"
